@@ -302,6 +302,54 @@ CHECKS["C08"] = dict(
          "check; warning codes (IntersectionNotFound) are accepted.",
     design="4 C08")
 
+CHECKS["C04"] = dict(
+    level="model_checking",
+    technique="TLA+ spec Oasis.tla (strict record parser, modal-variable machine with one action per "
+              "record kind, name-table resolution; Inflate.tla for CBLOCKs, CRC-32 / checksum) explored "
+              "by TLC (exhaustive record pairs + random walks); generated files replayed through "
+              "read_oas and files written by write_oas decoded by the specification; both validated by TLC",
+    text="Forward: TLC walks the modal machine (every record kind and info-byte pattern incl. modal "
+         "reuse, absolute / relative mode, all 12 repetition types, 6 point-list types, 8 real "
+         "encodings, RECTANGLE / POLYGON / PATH / TRAPEZOID x3 / all 26 CTRAPEZOID types / CIRCLE / "
+         "TEXT / PLACEMENT x2 / PROPERTY x2, names inline or through tables placed anywhere with "
+         "implicit or explicit numbers, stored and fixed-Huffman CBLOCKs, PAD, LAYERNAME, signatures); "
+         "TLC checks that every generated file is legal and decodes to the layout the machine built; "
+         "each file is loaded by read_oas and the result must equal the strict decoder's layout "
+         "(coordinates exact, circles [M] within tolerance, properties typed and ordered). Reverse: "
+         "TLC-enumerated libraries x writer options are saved by write_oas; the strict decoder "
+         "(incl. its own inflate) must accept the bytes, the layout must be the saved library on "
+         "the grid, and the END record, table offsets and strict flags, CRC-32 / checksum signature "
+         "and the S_* standard properties must be true of the file.",
+    note="Trusted: TLC, Oasis.tla as my reading of SEMI P39 (no copy of the standard in the sandbox: "
+         "CTRAPEZOID figures and TRAPEZOID deltas from memory), harness projection in 1/1000 grid "
+         "unit, zlib for nothing (the specification inflates itself). Not generated: XNAME / XELEMENT / "
+         "XGEOMETRY, modal reuse of a dimension after a CTRAPEZOID type that does not use it, integers "
+         "beyond 2^30 in geometry, dynamic-Huffman CBLOCKs on the forward side (decoded on the reverse side). "
+         "S_BOUNDING_BOX is only checked for cells whose box is computable exactly (Manhattan paths, "
+         "quarter-turn integer-magnification references).",
+    design="4 C04")
+
+CHECKS["C02"] = dict(
+    level="model_checking",
+    technique="TLA+ spec OasWriter.tla (Expect: the saved library on the precision grid; cycle "
+              "relation) over Oasis.tla's data model; TLC-enumerated libraries x writer options "
+              "replayed through write_oas / read_oas / oas_validate for 3 cycles; logs validated by TLC",
+    text="TLC enumerates libraries (26 compact-trapezoid shapes in every vertex order, general "
+         "trapezoids, rectangles / squares, Manhattan / octangular / general polygons, polygonal "
+         "circles, simple 1-3 element paths with flush / half-width / extended (also negative) ends, "
+         "labels, references by pointer, by name, dangling and to cells outside the library, every "
+         "repetition kind with either sign, typed multi-valued properties, 32-bit tags, quarter-grid "
+         "coordinates) x options (all 256 flag sets, deflate levels 0-9, circle tolerance 0 / > 0); "
+         "every case is saved and reloaded; the reload must equal the library with every coordinate "
+         "rounded to the grid (polygons as rings, repetitions as offset bags, properties exactly, "
+         "detected circles [M] inside a tolerance annulus), later save/load cycles must reproduce "
+         "the first reload, the grid must not drift and a requested signature must validate.",
+    note="Trusted: TLC, harness projection. Standard properties are excluded from the cycle "
+         "comparison (they are recomputed per save; their truth is C04's clause). RobustPaths and "
+         "paths with offsets or round ends are outside the property's quantifier and not generated. "
+         "thorough sweeps the full 256 x 10 x 2 option product; quick samples all 256 flag sets once.",
+    design="4 C02")
+
 NOT_YET = {}
 
 
